@@ -275,7 +275,7 @@ LATER_RULES = {
     "C08": "R08a also: environment policies stay at Jinja's defaults; R08d stand-ins never win over the user's context (bulk merges included). R08e ignore_templating is decided by membership of 'templating' in the ignore list.",
     "C09": "R09g overlapping occurrences counted; R09h context layered default < config < override; R09i a matched placeholder is a templated slice. R09j infer_type results.",
     "C10": "R10e scan bounds; R10f every templated slice is a conflict; R10g break safety by literalness only; R10h JJ01 tag surgery; R10i end of file is the end of the last raw slice. R10j JJ01 rebuilds a tag from its own five parts in order. R10f also: only create fixes may ask that ALL slices be templated.",
-    "C11": "R11e autodetect judges the whole file, never a slice; R11f string input reaches render_string as given.",
+    "C11": "R11g a constant codec replaces the detector's verdict only when there is none; R11e autodetect judges the whole file, never a slice; R11f string input reaches render_string as given.",
     "C12": "R12d what RF06 unquotes lexes back as one word; R12e borrowed whitespace goes on the gap side of a pending insertion. R12f segments re-created by a fix keep their source order (backwards scans cancel out).",
     "C14": "R14c comment guard of respace; R14d LT09 never moves a target behind a comment; R14e LT12's trailing-newline scan stops at comments. R14f determine_constraints' verdict is final.",
     "C15": "R15c CP05 child iteration; R15d no keyword parser matches quoted text. R15e no capitalisation rule crawls a type that may be a quoted name (four known findings).",
